@@ -98,6 +98,27 @@ def run_nbmerge_out(t):
         shutil.rmtree(d, ignore_errors=True)
 
 
+def run_render(t):
+    """direct calls of the conflict renderers (strategies.py) for the model correspondence"""
+    import nbformat
+    from nbdime.merging import strategies as S
+    from nbdime.diff_utils import to_diffentry_dicts
+    f = t['f']
+    if f == 'cell_marker': return {'ok': plain(S.cell_marker(t['text']))}
+    if f == 'output_marker': return {'ok': plain(S.output_marker(t['text']))}
+    if f == 'inline_cells':
+        base = [nbformat.from_dict(copy.deepcopy(c)) for c in t['base_cells']]
+        return {'ok': plain(S.make_inline_cell_conflict(base, to_diffentry_dicts(copy.deepcopy(t['local_diff'])),
+                                                        to_diffentry_dicts(copy.deepcopy(t['remote_diff']))))}
+    if f == 'vocabulary':
+        from nbdime.merging.decisions import _sort_key, MergeDecision
+        paths = t['paths']
+        decs = [MergeDecision(common_path=tuple(p), action='base', conflict=False, local_diff=[], remote_diff=[], n=i) for i, p in enumerate(paths)]
+        order = [d['n'] for d in sorted(decs, key=_sort_key, reverse=True)]
+        return {'ok': order}
+    raise ValueError('unknown renderer ' + f)
+
+
 def main():
     tasks = json.load(open(sys.argv[1]))
     logging.disable(logging.CRITICAL)      # nbdime's warnings about conflicts are not part of the observation
@@ -106,6 +127,7 @@ def main():
         try:
             if t['op'] == 'merge': results.append(run_merge(t))
             elif t['op'] == 'nbmerge_out': results.append(run_nbmerge_out(t))
+            elif t['op'] == 'render': results.append(run_render(t))
             else: raise ValueError('unknown op ' + t['op'])
         except BaseException as e:
             results.append(exc_info(e))
